@@ -550,6 +550,7 @@ struct Tpl
 static std::vector<Tpl> g_tpls;
 static std::map<int, int> g_line_of;
 
+static void build_table_extra();
 static void build_table()
 {
 #define X(ID, NAMED, POS, NAMES_, SPECS_, ARGS, ...) g_tpls.push_back(Tpl{ID, NAMED, POS, NAMES_, SPECS_, ARGS, false});
@@ -579,6 +580,12 @@ static void build_table()
     sp = p;
     g_tpls.push_back(Tpl{54, sn.c_str(), sp.c_str(), names, specs, args, true});
   }
+  build_table_extra();
+}
+static void build_table_extra()
+{
+  // LOGJ_ with an argument that is not a plain identifier (finding candidate F11c): the user means key `ns_q::val`
+  g_tpls.push_back(Tpl{55, "qualified {ns_q::val}", "qualified {}", {"ns_q::val"}, {""}, "i0", true});
 }
 static Tpl const* find_tpl(int id)
 {
@@ -627,6 +634,10 @@ struct CountClock : UserClockSource
 };
 
 static Logger* g_lg = nullptr;
+namespace ns_q
+{
+static int val = 0;
+}
 
 static void do_log(int id, V const& v)
 {
@@ -672,27 +683,61 @@ static void do_log(int id, V const& v)
     g_line_of[54] = __LINE__; LOGJ_INFO(lg, "max", a0, a1, a2, a3, a4, a5, a6, a7, a8, a9, a10, a11, a12, a13, a14, a15, a16, a17, a18, a19, a20, a21, a22, a23, a24, a25);
     break;
   }
+  case 55:
+  {
+    ns_q::val = v.i[0];
+    g_line_of[55] = __LINE__; LOGJ_INFO(lg, "qualified", ns_q::val);
+    break;
+  }
   default: break;
   }
 }
 
-/** the i-th argument rendered on its own by fmt with the hand-written spec */
-static std::vector<std::string> format_each(Tpl const& t, V const& v)
+/** the i-th argument rendered on its own by fmt with the given spec; `threw` is set if fmt rejects one */
+static std::vector<std::string> format_each(Tpl const& t, V const& v, std::vector<std::string> const& specs, bool* threw)
 {
   std::vector<std::string> out;
   auto words = split_ws(t.args);
   for (size_t k = 0; k < words.size(); ++k)
   {
-    std::string const f = "{" + (t.specs[k].empty() ? std::string{} : ":" + t.specs[k]) + "}";
+    std::string const sp = k < specs.size() ? specs[k] : std::string{};
+    std::string const f = "{" + sp + "}";
     int const ix = std::atoi(words[k].c_str() + 1);
-    switch (words[k][0])
+    try
     {
-    case 's': out.push_back(fmtquill::format(fmtquill::runtime(f), v.s[ix])); break;
-    case 'i': out.push_back(fmtquill::format(fmtquill::runtime(f), v.i[ix])); break;
-    default: out.push_back(fmtquill::format(fmtquill::runtime(f), v.d[ix]));
+      switch (words[k][0])
+      {
+      case 's': out.push_back(fmtquill::format(fmtquill::runtime(f), v.s[ix])); break;
+      case 'i': out.push_back(fmtquill::format(fmtquill::runtime(f), v.i[ix])); break;
+      default: out.push_back(fmtquill::format(fmtquill::runtime(f), v.d[ix]));
+      }
+    }
+    catch (std::exception const&)
+    {
+      out.emplace_back();
+      if (threw) { *threw = true; }
     }
   }
   return out;
+}
+/** specs ("" or ":spec") as the hand-written table intends them */
+static std::vector<std::string> table_specs(Tpl const& t)
+{
+  std::vector<std::string> o;
+  for (auto const& s : t.specs) { o.push_back(s.empty() ? std::string{} : ":" + s); }
+  return o;
+}
+/** specs as the grammar reads the literal (reference parser); falls back to the table outside the grammar */
+static std::vector<std::string> grammar_specs(Tpl const& t)
+{
+  auto ps = ref_parse(t.named);
+  if (!ps) { return table_specs(t); }
+  std::vector<std::string> o;
+  for (auto const& p : *ps)
+  {
+    if (p.kind == 'F') { o.push_back(p.has_spec ? ":" + p.spec : std::string{}); }
+  }
+  return o;
 }
 /** fmtquill::format of the hand-written positional literal with the same arguments */
 static std::string format_positional(Tpl const& t, V const& v)
@@ -847,12 +892,17 @@ struct E2E
     do_log(id, v);
     for (int k = 0; k < 4 && rec->recs.size() == before; ++k) { mw->poll_one(); }
     std::string const json = read_json_new();
-    std::vector<std::string> const fv = format_each(*t, v);
+    // model inputs: each argument rendered by the spec the *grammar* gives its placeholder; oracle inputs: by the
+    // spec the hand-written table intends (the two coincide except where a finding class makes them differ)
+    bool thr = false;
+    std::vector<std::string> const fvm = format_each(*t, v, grammar_specs(*t), &thr);
+    std::vector<std::string> const fv = format_each(*t, v, table_specs(*t), nullptr);
     bool const san = san_option && has_string_arg(*t);
     std::string fvs;
-    for (size_t k = 0; k < fv.size(); ++k) { fvs += (k ? ",v" : "v") + hex(fv[k]); }
-    if (fv.empty()) { fvs = "-"; }
-    std::cout << "log " << id << ' ' << enc_v(v) << ' ' << hex_or_dash(t->named) << ' ' << (san ? 1 : 0) << ' ' << fvs << " => ";
+    for (size_t k = 0; k < fvm.size(); ++k) { fvs += (k ? ",v" : "v") + hex(fvm[k]); }
+    if (fvm.empty()) { fvs = "-"; }
+    if (thr) { ++g_stats["e2e_fmt_rejects_spec"]; }
+    std::cout << "log " << id << ' ' << enc_v(v) << ' ' << hex_or_dash(t->named) << ' ' << (san ? 1 : 0) << ' ' << (thr ? 1 : 0) << ' ' << fvs << " => ";
     ++g_stats["e2e_statements"];
     if (rec->recs.size() != before + 1)
     {
